@@ -777,7 +777,7 @@ func (a *Activation) doReturn(ins *ssa.Return, rs []Val, st *State, rc string) {
 			if len(cs) > 1 {
 				l = fmt.Sprintf("%s.%d", label, k+1)
 			}
-			x.oblige("post", l, rc, cj.Term, ins.Pos(), en.Tags, cj.Text)
+			x.oblige("post", l, rc, cj.Term, ins.Pos(), en.Tags, cj.Text).setAlts(cj.Alts)
 		}
 	}
 }
@@ -1706,7 +1706,7 @@ func (a *Activation) loopHead(li *loopInfo, st *State, rc string) (*State, strin
 				if len(cs) > 1 {
 					l = fmt.Sprintf("%s.%d", label, k+1)
 				}
-				x.oblige(a.oname(fmt.Sprintf("loop%d:inv-init", li.ord)), l, rc, cj.Term, pos, inv.Tags, cj.Text)
+				x.oblige(a.oname(fmt.Sprintf("loop%d:inv-init", li.ord)), l, rc, cj.Term, pos, inv.Tags, cj.Text).setAlts(cj.Alts)
 			}
 		}
 	} else {
@@ -1893,7 +1893,7 @@ func (a *Activation) backEdge(li *loopInfo, from *ssa.BasicBlock, st *State, con
 			if len(cs) > 1 {
 				l = fmt.Sprintf("%s.%d", label, k+1)
 			}
-			x.oblige(a.oname(fmt.Sprintf("loop%d:inv-keep", li.ord)), l, cond, cj.Term, pos, inv.Tags, cj.Text)
+			x.oblige(a.oname(fmt.Sprintf("loop%d:inv-keep", li.ord)), l, cond, cj.Term, pos, inv.Tags, cj.Text).setAlts(cj.Alts)
 		}
 	}
 	if len(ls.Decreases) > 0 {
